@@ -11,6 +11,7 @@ import re, posixpath
 import core
 from core import World, parse_fs, Line, hx
 from gen import Gen, mode_line, cfg_line
+import suites
 from suites import parse_snap, esc, exp_silent
 
 
@@ -251,7 +252,13 @@ def make_spec(g, allow=()):
                 elif gone:
                     sid = r.choice(gone) + b' - ' + str(r.choice([1, 2, 10])).encode()
                     ends.append((cfgno, 'stale', sid, r.choice(END_SHAPES).replace(b'ID', sid)))
-    return dict(cfgs=cfgs, nfiles=nfiles, tests=tests, stale=stale, skipped=skipped, ends=ends,
+    # a test whose snapshot was never written (a Config with Update(false), or CI): the call is registered, fails
+    # with "snapshot not found" and creates nothing, so Clean meets a REGISTERED file that does not exist - in a
+    # directory that does not exist either, or next to the other files
+    fresh = None
+    if b'TestFresh' not in names and r.random() < 0.2:
+        fresh = (r.choice(['fresh/dir', sd]), 'neverwritten', r.choice([1, 2]))
+    return dict(cfgs=cfgs, nfiles=nfiles, tests=tests, stale=stale, skipped=skipped, ends=ends, fresh=fresh,
                 count=r.choice([1, 1, 2, 3]), shuffle=r.randrange(1 << 30),
                 stale_files=r.sample(['old_test.snap', 'x.snapshot', 'gone_1.snap', 'a.snap.json'], r.choice([0, 0, 1, 2])),
                 decoys=r.random() < 0.6,
@@ -319,6 +326,8 @@ def render(tag, spec, oracles):
     w.add(mode_line(ci, upd))
     for c in spec['cfgs']:
         w.add(c)
+    if spec.get('fresh'):
+        w.add(cfg_line(spec['nfiles'] + 1, spec['fresh'][0], spec['fresh'][1], None, 'false'))
     per = layout(spec)
     ends = {c: (kind, sid, raw) for c, kind, sid, raw in spec.get('ends', ())}
     for cfgno, entries in per.items():
@@ -357,6 +366,12 @@ def render(tag, spec, oracles):
                 continue
             for cfgno, v in calls:
                 w.add('snap %d %d %s' % (cfgno, texec, hx(v)), ('prepared-entry-passes', exp_silent))
+            w.add('end %d' % texec)
+        if spec.get('fresh'):
+            texec += 1
+            w.add('begin %d %s' % (texec, hx(b'TestFresh')))
+            for k in range(spec['fresh'][2]):
+                w.add('snap %d %d %s' % (spec['nfiles'] + 1, texec, hx(b'never recorded %d' % k)), ('missing-snapshot-fails-without-writing', suites.exp_one_error_no_write))
             w.add('end %d' % texec)
     ref = w.add('fsdump')
     w.meta.update(ref=ref, per=per, dirs=dirs)
